@@ -35,7 +35,9 @@ vars == <<c, done>>
 (* sequence_*: the tilt is accumulated by tilt transforms applied one after the other to waves that already carry a tilt *)
 (* (x on the builder then y by a transform, x then y by two transforms, a pair added to a pair): the total acts as one tilt *)
 Forms == {"base", "pairs", "per_axis", "axis_and_scalar", "pairs_with_other_axis", "per_axis_with_other_axis",
-          "sequence_builder_then_y", "sequence_x_then_y", "sequence_pair_plus_pair"}
+          "sequence_builder_then_y", "sequence_x_then_y", "sequence_pair_plus_pair",
+          "base_plus_two_axes",          \* waves that carry a scalar base tilt receive an ensemble with one tilt axis per direction
+          "propagator_reused"}           \* one propagator object propagated waves of another base tilt (same grid, energy, distance) before
 Thicknesses == {<<2>>, <<2, 3>>, <<3, 1, 2>>, <<1, 1, 1, 1>>}          \* halves of an Angstrom
 Grids == {<<16, 16>>, <<20, 12>>}
 Init == /\ \E f \in Forms, dz \in Thicknesses, g \in Grids, frac \in BOOLEAN, lz \in BOOLEAN, neg \in BOOLEAN :
